@@ -72,14 +72,23 @@ theorem rangeLoc_is_go (a b : Loc) : toG (Parse.rangeLoc a b) = Gen.getRangeLoc 
 theorem rangeLocExcl_is_go (a b : Loc) : toG (Parse.rangeLocExcl a b) = Gen.getRangeLocExcludeEnd (toG a) (toG b) := rfl
 #print axioms rangeLocExcl_is_go
 
-/-- the known classes are inhabited (model vs S-col on concrete lines; the same strings are in
-    corpus/C04): after `"a\nb"` the identifier is reported one column early -/
-theorem K1_witness :
+/-- after the repair of the string column advance: behind `"a\nb"` (an escape inside a short string) the
+    identifier is reported at its true column (former class K1) -/
+theorem escape_columns_exact :
     let src : Bytes := bytesOfString "s = \"a\\nb\" x"
     let toks := (lexAll src []).1
     (toks.filter (fun t => t.tok.kind == .ident)).map (fun t => (t.tok.from_ - t.tok.lineStart, (Col.posOfOffset src t.tok.offFrom).2)) =
-      [(0, 0), (10, 11)] := by
+      [(0, 0), (11, 11)] := by
   decide +kernel
-#print axioms K1_witness
+#print axioms escape_columns_exact
+
+/-- class K2 is inhabited: behind a long bracket the column is counted from the END of that construct -/
+theorem K2_witness :
+    let src : Bytes := bytesOfString "s = [[ab]] x"
+    let toks := (lexAll src []).1
+    ((toks.filter (fun t => t.tok.kind == .ident)).map (fun t => (t.tok.from_ - t.tok.lineStart, (Col.posOfOffset src t.tok.offFrom).2))).getLast? ≠
+      some (11, 11) := by
+  decide +kernel
+#print axioms K2_witness
 
 end LuaHelper.C04
